@@ -3,7 +3,7 @@
 use crate::harness::{fail, Gen, Verdict};
 use crate::keys;
 use crate::oracle::Strategy;
-use crate::pipeline::{build_crafted, honest_kb_claims, make_kb, select_all, sign, Cfg};
+use crate::pipeline::{build_crafted, honest_kb_claims, make_kb, select_all, sign, sign_raw, Cfg};
 use crate::rng::Rng;
 use crate::sut::{self, Kb, Out};
 use crate::util::{jstr, now, short, Parts, FAR_EXP, J};
@@ -44,7 +44,31 @@ fn exp_specs() -> Vec<(J, bool)> {
         (json!({"kind": "offset", "secs": 10 * Y}), true),
         (json!({"kind": "value", "value": FAR_EXP}), true),
         (json!({"kind": "value", "value": 4102444800.0}), true),
+        // non-integer spellings (RFC 7519 NumericDate may be non-integer)
+        (json!({"kind": "offset_frac", "secs": -10 * Y, "frac": "5"}), false),
+        (json!({"kind": "offset_frac", "secs": -3600, "frac": "5"}), false),
+        (json!({"kind": "offset_frac", "secs": -121, "frac": "25"}), false),
+        (json!({"kind": "raw", "text": "1e9"}), false),
+        (json!({"kind": "raw", "text": "1.0e9"}), false),
+        (json!({"kind": "raw", "text": "1683000000.9"}), false),
+        (json!({"kind": "raw", "text": "16830e5"}), false),
+        (json!({"kind": "raw", "text": "0.5"}), false),
+        (json!({"kind": "raw", "text": "-1.5"}), false),
+        (json!({"kind": "raw", "text": "-1e10"}), false),
+        (json!({"kind": "raw", "text": "-0.0"}), false),
+        (json!({"kind": "offset_frac", "secs": 3600, "frac": "5"}), true),
+        (json!({"kind": "offset_frac", "secs": 120, "frac": "75"}), true),
+        (json!({"kind": "raw", "text": "4.1024448e9"}), true),
+        (json!({"kind": "raw", "text": "4102444800.0"}), true),
     ]
+}
+
+/// spellings whose verdict the property does not fix (beyond year 2100 / beyond u64): no panic only
+fn exp_unasserted() -> Vec<J> {
+    ["1e300", "1.8446744073709552e19", "18446744073709551615", "18446744073709551616", "9223372036854775808", "1e19", "-1e300", "-9223372036854775809", "5e-324", "1e-400", "1E400"]
+        .iter()
+        .map(|t| json!({"kind": "raw", "text": t}))
+        .collect()
 }
 
 fn nbf_specs() -> Vec<(J, bool)> {
@@ -63,6 +87,27 @@ fn nbf_specs() -> Vec<(J, bool)> {
         (json!({"kind": "offset", "secs": Y}), false),
         (json!({"kind": "offset", "secs": 10 * Y}), false),
         (json!({"kind": "value", "value": FAR_EXP}), false),
+        // future nbf written as a float / with an exponent
+        (json!({"kind": "offset_frac", "secs": 120, "frac": "5"}), false),
+        (json!({"kind": "offset_frac", "secs": 3600, "frac": "5"}), false),
+        (json!({"kind": "offset_frac", "secs": 3600, "frac": "0"}), false),
+        (json!({"kind": "offset_frac", "secs": 10 * Y, "frac": "25"}), false),
+        (json!({"kind": "raw", "text": "9.0e9"}), false),
+        (json!({"kind": "raw", "text": "9e9"}), false),
+        (json!({"kind": "raw", "text": "1e10"}), false),
+        (json!({"kind": "raw", "text": "1E10"}), false),
+        (json!({"kind": "raw", "text": "9.0E+9"}), false),
+        (json!({"kind": "raw", "text": "25e8"}), false),
+        (json!({"kind": "raw", "text": "9000000000.0"}), false),
+        (json!({"kind": "raw", "text": "4.1024448e9"}), false),
+        (json!({"kind": "raw", "text": "4102444800.5"}), false),
+        (json!({"kind": "value", "value": 4102444800.5}), false),
+        (json!({"kind": "offset_frac", "secs": -3600, "frac": "5"}), true),
+        (json!({"kind": "offset_frac", "secs": -120, "frac": "5"}), true),
+        (json!({"kind": "raw", "text": "1.0e9"}), true),
+        (json!({"kind": "raw", "text": "1e9"}), true),
+        (json!({"kind": "raw", "text": "1683000000.75"}), true),
+        (json!({"kind": "raw", "text": "0.0"}), true),
     ]
 }
 
@@ -77,6 +122,12 @@ fn cases_signed(_rng: &mut Rng, sink: &mut dyn FnMut(J) -> bool) {
                 if !sink(json!({"mode": "signed", "exp": e, "nbf": nb, "accept": e_ok && nb_ok, "format": format, "kb": kb, "alg": alg, "with_disclosures": n % 2 == 0})) {
                     return;
                 }
+            }
+        }
+        for e in exp_unasserted() {
+            n += 1;
+            if !sink(json!({"mode": "signed", "exp": e, "nbf": {"kind": "absent"}, "accept": null, "format": format, "kb": kb, "alg": alg, "with_disclosures": n % 2 == 0})) {
+                return;
             }
         }
         for (nb, nb_ok) in nbf_specs() {
@@ -104,6 +155,9 @@ fn cases_lib(_rng: &mut Rng, sink: &mut dyn FnMut(J) -> bool) {
                 }
             }
             for (nb, nb_ok) in nbf_specs() {
+                if nb["kind"] == "raw" || nb["kind"] == "offset_frac" {
+                    continue;
+                }
                 n += 1;
                 if !sink(json!({"mode": "lib", "strategy": strategy, "exp": {"kind": "value", "value": FAR_EXP}, "nbf": nb, "accept": nb_ok, "format": format, "kb": kb, "alg": alg, "select_nbf": n % 2 == 0})) {
                     return;
@@ -117,8 +171,29 @@ fn resolve(spec: &J) -> Option<J> {
     match spec["kind"].as_str()? {
         "absent" => None,
         "value" => Some(spec["value"].clone()),
+        // number written with a fraction / exponent: kept as text, spliced into the payload text
+        "raw" => Some(json!(format!("@@RAW:{}@@", spec["text"].as_str()?))),
+        "offset_frac" => Some(json!(format!("@@RAW:{}.{}@@", now() + spec["secs"].as_i64()?, spec["frac"].as_str()?))),
         _ => Some(json!(now() + spec["secs"].as_i64()?)),
     }
+}
+
+fn splice_raw(payload: &J) -> Option<String> {
+    let text = jstr(payload);
+    if !text.contains("\"@@RAW:") {
+        return None;
+    }
+    let mut out = String::new();
+    let mut rest = text.as_str();
+    while let Some(i) = rest.find("\"@@RAW:") {
+        out.push_str(&rest[..i]);
+        let after = &rest[i + 7..];
+        let j = after.find("@@\"")?;
+        out.push_str(&after[..j]);
+        rest = &after[j + 3..];
+    }
+    out.push_str(rest);
+    Some(out)
 }
 
 pub fn check(case: &J) -> Verdict {
@@ -126,6 +201,7 @@ pub fn check(case: &J) -> Verdict {
     let alg = case["alg"].as_str().unwrap_or("ES256");
     let want_kb = case["kb"].as_bool().unwrap_or(false);
     let accept = case["accept"].as_bool().unwrap_or(false);
+    let asserted = !case["accept"].is_null();
     let kb = Kb::new("es256");
     let exp = resolve(&case["exp"]);
     let nbf = resolve(&case["nbf"]);
@@ -166,7 +242,10 @@ pub fn check(case: &J) -> Verdict {
         }
         let (payload, ds) = build_crafted(&payload, &[json!(["c2FsdC1zYWx0LXNhbHQtMDE", "n0", "v0"]), json!(["c2FsdC1zYWx0LXNhbHQtMDI", "n1", {"k": 1}])]);
         let ds = if with_d { ds } else { vec![] };
-        let jwt = sign(&payload, alg);
+        let jwt = match splice_raw(&payload) {
+            Some(text) => sign_raw(&text, alg),
+            None => sign(&payload, alg),
+        };
         let kbs = if want_kb {
             make_kb(&keys::holder_enc("es256"), "ES256", Some("kb+jwt"), &honest_kb_claims(&kb, &jwt, &ds))
         } else {
@@ -175,7 +254,14 @@ pub fn check(case: &J) -> Verdict {
         Parts { jwt, disclosures: ds, kb: kbs }.serialize(format)
     };
     let o = sut::verify(&text, alg, if want_kb { Some(&kb) } else { None }, format);
-    let what = format!("exp = {}, nbf = {} (now = {})", exp.map(|e| jstr(&e)).unwrap_or("absent".into()), nbf.map(|e| jstr(&e)).unwrap_or("absent".into()), now());
+    let show = |v: Option<J>| v.map(|e| jstr(&e).replace("\"@@RAW:", "").replace("@@\"", "")).unwrap_or("absent".into());
+    let what = format!("exp = {}, nbf = {} (now = {})", show(exp), show(nbf), now());
+    if !asserted {
+        return match o {
+            Out::Panic(m) => fail(format!("PANIC: {m} ({what})"), "Ok or Err"),
+            _ => Verdict::Pass,
+        };
+    }
     match (o, accept) {
         (Out::Ok(_), true) | (Out::Err(_), false) => Verdict::Pass,
         (Out::Ok(v), false) => fail(format!("ACCEPTED a credential with {what}; claims {}", short(&jstr(&v), 200)), "rejected (outside the validity window / no usable exp)"),
